@@ -69,7 +69,7 @@ class Check:
         for n, (g, vs) in enumerate(sorted(groups.items())):
             path = os.path.join(REPLAYS, '%s-%d.json' % (self.pid, n))
             with open(path, 'w') as fh:
-                json.dump({'property': self.pid, 'key': g, 'count': len(vs),
+                json.dump({'property': self.pid, 'key': g, 'count': len(vs), 'all_keys': sorted({v['key'] for v in vs})[:400],
                            'cases': [{'key': v['key'], 'what': v['what'], 'replay': v['replay']} for v in vs[:20]]},
                           fh, indent=1, default=str)
             paths.append(path)
